@@ -56,9 +56,9 @@ def make_ds(Dataset, shape, kinds, layout='C', grids=None):
         for k, (n, kind) in enumerate(zip(shape, kinds)):
             how = grids[k] if grids else 'inc'
             if kind == 'e':
-                bins[f'b{k}'] = grid(np.arange(n + 1, dtype=float) + 100. * k, how)
+                bins[DIMNAMES[k]] = grid(np.arange(n + 1, dtype=float) + 100. * k, how)
             else:
-                bins[f'b{k}'] = grid(np.arange(n, dtype=float) + 0.5 + 100. * k, how)
+                bins[DIMNAMES[k]] = grid(np.arange(n, dtype=float) + 0.5 + 100. * k, how)
     d = Dataset(value, error, bins=bins, name='nm', what='wh')
     if layout == 'M' and size:
         # a masked dataset (Dataset.mask): every third cell masked
@@ -255,6 +255,8 @@ class Idx:
 
 
 GRIDS = ['dec', 'rep', 'per', 'uns']
+# dimension names in an order that is not the alphabetical one (t, e, mu, phi as in Tripoli-4 scores)
+DIMNAMES = ['t', 'e', 'mu', 'phi', 'z', 'y']
 ITYPES = ['int64', 'int32', 'intp', 'int8', 'index']
 ICONV = {None: lambda a: a,
          'int64': lambda a: None if a is None else np.int64(a),
